@@ -197,7 +197,7 @@ def run_one(v, idx, case, scratch, rng):
     log = probes.new_log(scratch)
     try:
         with quiet():
-            pipeline = daggen.build_pipeline(case, log=log)
+            pipeline = daggen.build_pipeline(case, log=log, explicit_defaults=(idx % 4 == 1))
     except Exception as e:  # noqa: BLE001
         v.bad(exc_sig(e, "refused-construct"), f"valid DAG refused: {exc_msg(e)}", case=daggen.describe(case))
         return
@@ -263,7 +263,7 @@ def run_one(v, idx, case, scratch, rng):
             log2 = probes.new_log(scratch)
             try:
                 with quiet():
-                    p2 = daggen.build_pipeline(case, log=log2, order=order)
+                    p2 = daggen.build_pipeline(case, log=log2, order=order, explicit_defaults=(idx % 4 == 1))
             except Exception as e:  # noqa: BLE001
                 v.bad(exc_sig(e, "refused-construct-reordered"), f"re-ordered function list refused: {exc_msg(e)}",
                       case=daggen.describe(case), order=order)
